@@ -314,3 +314,12 @@ Proof.
 Qed.
 
 End TableSafety.
+
+(* table_run does not consult the filter: the safety statement without the policy *)
+Theorem table_iterator_safe :
+  forall (cmp : bytes -> bytes -> comparison) (is_internal has_filter paranoid verify : bool)
+         (file : bytes) (ops : list iop),
+  table_run cmp is_internal has_filter paranoid verify file ops <> OOB.
+Proof.
+  intros. apply (table_run_safe cmp is_internal has_filter user_fmatch user_fmatch_safe).
+Qed.
